@@ -9,6 +9,10 @@
 (*   counter_add - rpc.server.requests.Add inside OnDispatchEnd            *)
 (*   span_end    - span.End() inside OnDispatchEnd                         *)
 (*   respond     - the client has the complete response                    *)
+(* span_start carries what the tracer decided (recording, sampled flag -   *)
+(* independent of each other, see SamplerTable); a span_end logged for a   *)
+(* span that does not record has no matching action, and a recording span  *)
+(* without a span_end blocks its respond - whatever its sampled flag.      *)
 (* Routing, the method run, and the hook steps that leave no event         *)
 (* (tracing or metrics disabled, non-recording span) are not logged; they  *)
 (* touch only the request's own slot and ledger entry, so they are taken   *)
@@ -70,7 +74,7 @@ T_SpanStart ==
     /\ \E cl \in Holder(Ev.n) :
           /\ Hook_OnDispatchStart(cl)
           /\ LET sp == disp'[Len(disp')].span IN
-             /\ sp.started /\ sp.recording = Ev.recording
+             /\ sp.started /\ sp.recording = Ev.recording /\ sp.sampled = Ev.sampled
              /\ sp.recording => (sp.parent = Ev.parent /\ sp.ts = Ev.ts)
     /\ Consume
 
